@@ -1,4 +1,6 @@
 import Logrange.Proofs.RdPos
+import Logrange.Proofs.RdIterFwd
+import Logrange.Proofs.RdPaging
 import Logrange.Generated.C03
 /-!
 # C03 — Paged and resumed reading delivers every matching event exactly once
@@ -6,10 +8,13 @@ import Logrange.Generated.C03
 Property theorems only. The executable model is `Logrange/Model/Rd*.lean` (journal iterators, cursor, mixer
 tree, fiterator, `Querier.Query` loop, provider), compared step by step with the code by harness/cmd/c03.
 
-Status (see props/C03.json): the position text round trip is proved for all positions; the code-shape facts
-the model is written for are re-checked against /repo on every run; the universal statements about the
-iterator and the paging chain are kept as `…_stmt : Prop` (not yet proved) with kernel-evaluated bounded
-instances beside them; the open findings have counterexample theorems evaluated on the model.
+Status (see props/C03.json): proved for ALL inputs — the position text round trip, the forward laws of the
+library journal iterator (`get_forward`, `next_forward`, `iter_enumerates`, `pos_after`), stability of positions
+under appends, and `paging` / `appends_between_pages` for one partition at the level of the cursor (read loop +
+commit; same cursor object or fresh cursor from the position text). The lift of `paging` to the request level
+(`query`/`pages`, ids and held cursors) is a statement with a kernel-evaluated instance. The code-shape facts
+the model is written for are re-checked against /repo on every run; the open findings have counterexample
+theorems evaluated on the model.
 -/
 namespace Logrange.Props.C03
 open Logrange.Rd Logrange.Generated.C03
@@ -43,32 +48,83 @@ theorem pos_empty_is_zero : parsePos [] = some {} := by decide
 example : parsePos (showPos ⟨0x18D8DAD11BBA0000, 7⟩) = some ⟨0x18D8DAD11BBA0000, 7⟩ :=
   pos_string_roundtrip' _ (by decide) (by decide)
 
-/-! ## the universal statements (kept as statements; bounded instances below) -/
+/-! ## the journal iterator (library `journal.JIterator`), forward, for ALL journals and positions
 
-/-- draining the library iterator forward: `get`, emit, `next`, until EOF -/
-def drain (j : Journal) : Nat → It → List Rec
-  | 0, _ => []
-  | n + 1, it =>
-    match get j it with
-    | (it', some r) => r :: drain j n (next j it')
-    | (_, none) => []
+`flatIdx j p` = number of records stored strictly before `p`; `recordsFrom j p = (flat j).drop (flatIdx j p)`.
+`WF j it` holds for every iterator state the code can reach (in particular for a fresh iterator positioned by
+`SetPos`, whatever the position: before/inside/between/after the chunks, `tail`). -/
 
-/-- **iter_enumerates** (statement): from any position, a forward drain delivers exactly the records from the
-normalised position on, across chunk edges and empty chunks. -/
-def iter_enumerates_stmt : Prop :=
-  ∀ (j : Journal) (p : Pos), Sorted j →
-    drain j ((flat j).length + 1) (setPos j {} p) = recordsFrom j p
+/-- `Get` returns the record at the iterator's flat index (EOF = past the end) and does not move -/
+theorem get_forward (j : Journal) (it : It) (hs : Sorted j) (hw : WF j it) (hb : it.bkwd = false) :
+    (get j it).2 = (flat j)[fIdx j it]? ∧ fIdx j (get j it).1 = fIdx j it ∧ WF j (get j it).1 :=
+  let h := getFwd j it hs hw hb; ⟨h.1, h.2.2.2.1, h.2.1⟩
+
+/-- `Next` advances the flat index by exactly one (it stays at the end) -/
+theorem next_forward (j : Journal) (it : It) (hs : Sorted j) (hw : WF j it) (hb : it.bkwd = false) :
+    fIdx j (next j it) = min (fIdx j it + 1) (flat j).length ∧ WF j (next j it) :=
+  let h := nextFwd j it hs hw hb; ⟨h.2.2.2, h.1⟩
+
+/-- **iter_enumerates**: from ANY position, draining the iterator (`Get`, emit, `Next`, until EOF) delivers
+exactly the records from the normalised position on — across chunk edges and empty chunks. -/
+theorem iter_enumerates (j : Journal) (p : Pos) (n : Nat) (hs : Sorted j) (hn : (flat j).length ≤ n) :
+    drain j n (setPos j {} p) = recordsFrom j p := by
+  obtain ⟨h1, h2, h3⟩ := setPos_fresh j p
+  have hw : WF j (setPos j {} p) := by unfold WF; rw [h1]; trivial
+  have := Logrange.Rd.iter_enumerates j (setPos j {} p) n hs hw h3 hn
+  rw [this]; unfold effPos; rw [h1]; simp [h2]
+
+/-- with any fuel: the first `n` of them -/
+theorem drain_take (j : Journal) (it : It) (n : Nat) (hs : Sorted j) (hw : WF j it) (hb : it.bkwd = false) :
+    drain j n it = (recordsFrom j (effPos it)).take n := drain_eq j it n hs hw hb
+
+/-- **pos_after**: after `k` rounds of `Get; Next` the iterator stands at the (k+1)-th remaining record -/
+theorem pos_after (j : Journal) (it : It) (k : Nat) (hs : Sorted j) (hw : WF j it) (hb : it.bkwd = false) :
+    fIdx j (stepK j k it) = min (fIdx j it + k) (flat j).length :=
+  (Logrange.Rd.pos_after j it k hs hw hb).1
+
+/-- appends do not move a settled position and only extend what is stored behind it -/
+theorem position_survives_appends (j j' : Journal) (p : Pos) (hg : Grows j j') (hs : Sorted j') (hp : Settled j p) :
+    flatIdx j' p = flatIdx j p ∧ recordsFrom j p <+: recordsFrom j' p := by
+  obtain ⟨⟨e, he⟩, h2, _⟩ := grows j j' hg hs
+  refine ⟨(h2 p hp).1, ?_⟩
+  unfold recordsFrom
+  rw [(h2 p hp).1, ← he, List.drop_append_of_le_length (pg_flatIdx_le j p)]
+  exact List.prefix_append _ _
+
+/-! ## paging, one partition (un-ranged), for ALL journals, limits and environment choices
+
+A page is the read loop of `Querier.Query` followed by `commit` (`pageOn`); before every further page the
+environment chooses: the server still holds the cursor object (`same`) or a new cursor is built from the
+position text of the previous answer (`fresh`: evicted cursor, request id zeroed and position-only requests
+are this case). `pagesC` starts at `head`. `keepW w` is the WHERE filter (`w = false`: no filter). -/
+
+/-- **paging**: the concatenated pages are the first Σ limits events of the unlimited read. -/
+theorem paging (name : Nat) (w : Bool) (j : Journal) (l0 : Nat) (steps : List PStep) (hs : Sorted j)
+    (hfix : ∀ st ∈ steps, st.jrnl = j) :
+    (pagesC name w j l0 steps).flatten = ((flat j).filter (keepW w)).take (l0 + (steps.map (·.limit)).sum) :=
+  pg_paging getFwd nextFwd hs l0 steps hfix
+
+/-- **appends_between_pages**: when the journal grows between pages (`GrowsChain`: appends only), the
+concatenated pages are a prefix of the matching events of the FINAL journal in stored order — nothing twice,
+nothing foreign, later appends later — and if the last page came back shorter than its limit they are all of them. -/
+theorem appends_between_pages (name : Nat) (w : Bool) (j0 : Journal) (l0 : Nat) (steps : List PStep)
+    (hne : j0 ≠ []) (hs : Sorted j0) (hch : GrowsChain j0 steps) :
+    ∃ R, (flat (lastJ j0 steps)).filter (keepW w) = (pagesC name w j0 l0 steps).flatten ++ R ∧
+      (∀ st evs, steps.getLast? = some st → (pagesC name w j0 l0 steps).getLast? = some evs →
+        evs.length < st.limit → R = []) :=
+  pg_pages_grow getFwd nextFwd grows j0 l0 steps hne hs hch
+
+/-! ### the same chain through `Querier.Query` and the provider (statement; instance `paging_j3` below) -/
 
 /-- one partition, un-ranged: the server with that partition, a chain of pages -/
 def onePart (j : Journal) : Server := { store := [(0, j)] }
 def qAll (w : Bool) : Qry := { text := 1, where_ := w }
 def keepOf (w : Bool) (r : Rec) : Bool := !w || r.keep
 
-/-- **paging** (statement): for one partition, every sequence of limits and every resume choice per page, the
-concatenated pages are the first Σ limits events of the unlimited read. -/
-def paging_stmt : Prop :=
+/-- the cursor-level theorem `paging` lifted to `Logrange.Rd.pages` (request ids, held cursors, `Resume`) -/
+def paging_query_level_stmt : Prop :=
   ∀ (j : Journal) (w : Bool) (l0 : Nat) (steps : List Step), Sorted j →
-    (∀ s ∈ steps, s.store' = none) →
+    (∀ s ∈ steps, s.store' = none ∧ s.perm = []) →
     (pages queryMaxLimit (onePart j) [] { query := some (qAll w), limit := l0, wait := true } steps).flatten
       = (((flat j).filter (keepOf w)).take
           ((l0 :: steps.map (·.limit)).map (fun l => min l queryMaxLimit)).sum)
@@ -79,11 +135,16 @@ def r (l : Nat) (k : Bool := true) : Rec := { lbl := l, ts := l, keep := k }
 /-- three chunks, the middle one empty -/
 def j3 : Journal := [⟨10, [r 0, r 1 false, r 2], 0, maxU32⟩, ⟨20, [], 0, maxU32⟩, ⟨30, [r 3, r 4 false, r 5], 0, maxU32⟩]
 
+example : Sorted j3 ∧ j3 ≠ [] := ⟨by unfold Sorted j3; decide, by simp [j3]⟩
+/-- the cursor-level chain of `paging` on `j3`: a fresh cursor, then the same one -/
+example : (pagesC 0 true j3 1 [⟨.fresh, 2, j3⟩, ⟨.same, 1, j3⟩]).flatten = ((flat j3).filter (keepW true)).take 4 := by
+  decide +kernel
+
 /-- `iter_enumerates` on `j3` for every position on a grid that covers before/inside/between/after the
 chunks, idx 0..4 and `tail` -/
 theorem iter_enumerates_j3 :
     ∀ cid ∈ [0, 9, 10, 11, 19, 20, 21, 30, 31, tailCid], ∀ idx ∈ [0, 1, 2, 3, 4, maxU32],
-      drain j3 7 (setPos j3 {} ⟨cid, idx⟩) = recordsFrom j3 ⟨cid, idx⟩ := by decide
+      drain j3 7 (setPos j3 {} ⟨cid, idx⟩) = recordsFrom j3 ⟨cid, idx⟩ := by decide +kernel
 
 def stepsOf (ls : List Nat) (rs : List Resume) : List Step :=
   (ls.zip rs).map (fun p => { resume := p.2, limit := p.1, wait := true })
